@@ -175,9 +175,11 @@ type auxPublicKeyAlgorithm struct {
 }
 
 var publicKeyNameToAlgorithm = map[string]PublicKeyAlgorithm{
-	"RSA":   RSA,
-	"DSA":   DSA,
-	"ECDSA": ECDSA,
+	"RSA":     RSA,
+	"DSA":     DSA,
+	"ECDSA":   ECDSA,
+	"Ed25519": Ed25519,
+	"X25519":  X25519,
 }
 
 // MarshalJSON implements the json.Marshaler interface
